@@ -42,7 +42,8 @@ def ante (d : D) (o : Op) : Outcome Unit :=
     let mode := App.Mode.ofString m
     -- the transaction's signer is the one its message names (cosmos.msg.v1.signer = proposer field)
     let msgSigner := if o.kind == "tx.ethblock" then o.str "signer" else o.str "proposer"
-    if o.str "signerdecodes" == "0" then .err "ante:signers"
+    if o.nat "memo" > 0 then .err "ante:memo"
+    else if o.str "signerdecodes" == "0" then .err "ante:signers"
     else
     let isProp := msgSigner == d.w.rel.proposer
     match App.guard mode (o.nat "memo") (o.nat "signers") (o.nat "timeout") (o.nat "height") (msgNamesOf o) isProp with
@@ -51,8 +52,8 @@ def ante (d : D) (o : Op) : Outcome Unit :=
     | .ok () =>
       -- SetPubKey / SigVerification / IncrementSequence, as facts stated by the harness
       if o.str "signer" != msgSigner then .err "ante:signature"
-      else if o.str "sigok" == "0" then .err "ante:signature"
       else if o.str "seqok" == "0" then .err "ante:sequence"
+      else if o.str "sigok" == "0" then .err "ante:signature"
       else .ok ()
 
 def payloadOf (o : Op) : Option App.Payload :=
@@ -174,31 +175,34 @@ def step (d : D) (o : Op) : D × String :=
   | "a.end" =>
     -- end of block: relayer election, engine notification, validator updates
     let rc := relCrypto d.w.o
-    let fail (cls : String) : D × String :=
+    let np := "np:" ++ toHex (fitLeft 32 d.goat.head.blockHash)
+    let fcu := "fcu:" ++ toHex (fitLeft 32 d.goat.head.blockHash) ++ "/" ++ toHex (fitLeft 32 d.goat.head.parentHash) ++ "/" ++ toHex (fitLeft 32 d.goat.head.parentHash)
+    let npFails := o.str "newstatus" == "ERROR" || o.str "newstatus" == "INVALID"
+    let fail (eng : List String) (cls : String) : D × String :=
       match d.snap with
-      | some (w0, g0) => ({ d with w := w0, goat := g0, snap := none, halting := false, failed := none }, "=> halt ;; " ++ cls)
-      | none => ({ d with halting := false, failed := none }, "=> halt ;; " ++ cls)
+      | some (w0, g0) => ({ d with w := w0, goat := g0, snap := none, halting := false, failed := none }, "=> halt eng=" ++ lst eng ++ " ;; " ++ cls)
+      | none => ({ d with halting := false, failed := none }, "=> halt eng=" ++ lst eng ++ " ;; " ++ cls)
     match d.failed with
-    | some cls => fail cls
+    | some cls => fail [] cls
     | none =>
     match Relayer.endBlocker rc d.w.rel (o.int "time") with
-    | .err e => fail e
-    | .panic e => fail e
+    | .err e => fail [] e
+    | .panic e => fail [] e
     | .ok rel =>
       match App.finalized (o.str "newstatus") (o.str "fcustatus") with
-      | .err e => fail e
-      | .panic e => fail e
+      | .err e => fail (if npFails then [np] else [np, fcu]) e
+      | .panic e => fail [np] e
       | .ok () =>
         match Locking.endBlocker d.w.lock with
-        | .err e => fail e
-        | .panic e => fail e
+        | .err e => fail [np, fcu] e
+        | .panic e => fail [np, fcu] e
         | .ok (lk, ups) =>
           let ss := sortStr (ups.map (fun u => s!"{toHex u.pubkey}|{u.power}"))
           let (cs, cres) := match Comet.apply d.w.comet (ups.map (fun u => (u.pubkey, Comet.toInt64 u.power))) with
             | .ok cs => (cs, "comet=ok")
             | .error e => (d.w.comet, "comet=err:" ++ e)
           ({ d with w := { d.w with rel := rel, lock := lk, comet := cs }, snap := none, halting := false, failed := none },
-            "=> ok ups=" ++ lst ss ++ " ;; " ++ cres)
+            "=> ok ups=" ++ lst ss ++ " eng=" ++ lst [np, fcu] ++ " ;; " ++ cres)
   | "tx.ethblock" =>
     let out (r : D × String) : D × String := if d.halting then (r.1, "=> n/a") else r
     match ante d o with
